@@ -135,7 +135,7 @@ def _ground_axioms(eng, formulas):
         elif z3.is_app(a) and a.decl().kind() == z3.Z3_OP_SELECT and z3.is_const(a.arg(0)) \
                 and a.arg(0).decl().name() == "H0_LR" and not _has_var(a.arg(1)):
             l = a.arg(1)
-            out.append(z3.Implies(z3.And(l > 0, l < alloc0), z3.And(e >= 0, e < alloc0)))
+            out.append(z3.Implies(z3.And(l > 0, l < alloc0), z3.And(e >= 1, e < alloc0)))
     return out
 
 
@@ -288,46 +288,57 @@ RETRY_CONFIGS = [{"smt.random_seed": 11}, {"smt.mbqi": False}, {"smt.random_seed
 _SHARED = None
 
 
-def _solve_group(nm):
-    """All VCs of one named obligation -> (result dict, failure reason|None)."""
+def _solve_vc(task):
+    """One verification condition -> (name, proved?, seconds, detail, failure reason|None)."""
+    nm, idx = task
     eng, groups, timeout, fast = _SHARED
-    status, tt, detail, fr = "proved", 0.0, "", None
+    o = groups[nm][idx]
     if nm.endswith(":cover-false"):
-        # expected NOT to be provable: `unsat` here means contradictory assumptions
-        # (a single path on which the loop body is unreachable is fine: vacuous only if ALL are)
-        bad = True
-        for o in groups[nm]:
-            r, dt, _, sv = _solve(eng, o, min(timeout, 3000))
+        # expected NOT to be provable: `unsat` here means contradictory assumptions on this path
+        r, dt, _, sv = _solve(eng, o, min(timeout, 3000))
+        return (nm, r != "unsat", dt, "", None)
+    tt = 0.0
+    r, dt, _, sv = _solve(eng, o, timeout)
+    tt += dt
+    if r != "unsat" and not fast:
+        # quantified queries are sensitive to incidental naming and load:
+        # `unsat` from any configuration is a proof, so retry before giving up
+        for cfg in RETRY_CONFIGS + [{"timeout": timeout * 5}, {"timeout": timeout * 20, "smt.random_seed": 3}]:
+            cfg = dict(cfg)
+            r, dt, _, sv = _solve(eng, o, cfg.pop("timeout", timeout), cfg=cfg)
             tt += dt
-            if r != "unsat":
-                bad = False
+            if r == "unsat":
                 break
-        return ({"name": nm, "status": "error" if bad else "proved", "time_s": tt, "n_vcs": len(groups[nm]),
-                 "detail": "the assumptions at this loop head are contradictory: every obligation below it is vacuous"
-                 if bad else "", "solver": "z3", "model": None, "smt2": ""}, None)
-    for o in groups[nm]:
-        r, dt, _, sv = _solve(eng, o, timeout)
-        tt += dt
-        if r != "unsat" and not fast:
-            # quantified queries are sensitive to incidental naming and load:
-            # `unsat` from any configuration is a proof, so retry before giving up
-            for cfg in RETRY_CONFIGS + [{"timeout": timeout * 5}]:
-                cfg = dict(cfg)
-                r, dt, _, sv = _solve(eng, o, cfg.pop("timeout", timeout), cfg=cfg)
-                tt += dt
-                if r == "unsat":
-                    break
-        if r != "unsat":
-            status = "open"
-            detail = o.detail
-            try:
-                why = sv.reason_unknown() if r == "unknown" else ""
-            except Exception:
-                why = ""
-            fr = r + (" (%s)" % why if why else "")
-            break
-    return ({"name": nm, "status": status, "time_s": tt, "n_vcs": len(groups[nm]),
-             "detail": detail, "solver": "z3", "model": None, "smt2": ""}, fr)
+    if r == "unsat":
+        return (nm, True, tt, "", None)
+    try:
+        why = sv.reason_unknown() if r == "unknown" else ""
+    except Exception:
+        why = ""
+    return (nm, False, tt, o.detail, r + (" (%s)" % why if why else ""))
+
+
+def _collect_vcs(groups, solved):
+    """Per-VC results -> per-name results (a name is proved iff all its VCs are; a
+    `cover-false` name is vacuous only if EVERY path reaching that loop head is contradictory)."""
+    by = {}
+    for nm, ok, tt, detail, fr in solved:
+        by.setdefault(nm, []).append((ok, tt, detail, fr))
+    out = []
+    for nm in groups:
+        rs = by.get(nm, [])
+        tt = sum(x[1] for x in rs)
+        if nm.endswith(":cover-false"):
+            bad = bool(rs) and not any(x[0] for x in rs)
+            out.append(({"name": nm, "status": "error" if bad else "proved", "time_s": tt, "n_vcs": len(rs),
+                         "detail": "the assumptions at this loop head are contradictory on every path: the obligations "
+                                   "below it are vacuous" if bad else "", "solver": "z3", "model": None, "smt2": ""}, None))
+            continue
+        fails = [x for x in rs if not x[0]]
+        out.append(({"name": nm, "status": "open" if fails else "proved", "time_s": tt, "n_vcs": len(rs),
+                     "detail": fails[0][2] if fails else "", "solver": "z3", "model": None, "smt2": ""},
+                    fails[0][3] if fails else None))
+    return out
 
 
 def verify_one(args):
@@ -380,14 +391,18 @@ def verify_one(args):
         _SHARED = (eng, groups, timeout, fast)
         names = list(groups)
         inner = int(os.environ.get("PYVC_INNER", "1"))
-        if inner > 1 and len(names) > 40:
+        tasks = [(nm, i) for nm in names for i in range(len(groups[nm]))]
+        if inner > 1 and len(tasks) > 40:
             # many obligations in one function: solve them in forked children
             # (the z3 terms are inherited by fork; results are plain dicts)
             mp = multiprocessing.get_context("fork")
+            # the historically slow clauses first, so that they do not end up alone at the end
+            slow = ("preserve:content", "preserve:front", "preserve:values", "preserve:no_conflict", "preserve:rest", "preserve:sub")
+            tasks.sort(key=lambda t: 0 if any(x in t[0] for x in slow) else 1)
             with mp.Pool(inner) as pool:
-                solved = pool.map(_solve_group, names, chunksize=max(1, len(names) // (inner * 8)))
+                solved = _collect_vcs(groups, pool.map(_solve_vc, tasks, chunksize=1))
         else:
-            solved = [_solve_group(nm) for nm in names]
+            solved = _collect_vcs(groups, [_solve_vc(t) for t in tasks])
         for x, fr in solved:
             res.append(x)
             stime += x["time_s"]
@@ -478,6 +493,7 @@ def verify(targets, tier="quick", mode="normal", tags=None, jobs=16):
     ctx = multiprocessing.get_context("fork")
     cons = all_contracts()
     work = []
+    notes = []
     for t in targets:
         n = cons[t].ghost.get("split_cases") if t in cons else None
         if n:
@@ -486,6 +502,11 @@ def verify(targets, tier="quick", mode="normal", tags=None, jobs=16):
             alts = [v if isinstance(v, list) else [v] for v in cons[t].params.values()]
             total = len(list(_it.product(*alts)))
             only = os.environ.get("PYVC_CASES")          # development: a subset of the cases
+            qc = cons[t].ghost.get("quick_cases")
+            if tier == "quick" and qc and not only:
+                only = ",".join(str(x) for x in qc)
+                notes.append("%s: quick tier verifies the parameter-shape cases %s of %d (all of them in the thorough tier)"
+                             % (t, qc, total))
             for i in range(0, total, n):
                 cs = set(range(i, min(total, i + n)))
                 if only:
@@ -544,8 +565,10 @@ def verify(targets, tier="quick", mode="normal", tags=None, jobs=16):
         if ok:
             functions.append(r["function"] + ("" if mode == "normal" else "@" + mode))
         st += r.get("solver_time", 0.0)
-    return Result(obligations, functions, list(ASSUMPTIONS), list(TRUSTED),
-                  {"z3": st}, errors)
+    r = Result(obligations, functions, list(ASSUMPTIONS), list(TRUSTED),
+               {"z3": st}, errors)
+    r.notes = notes
+    return r
 
 
 if __name__ == "__main__":
